@@ -108,6 +108,7 @@ def joinSegs (dir : Str) (p : Str) : List Str := cleanSegs true (split (dir ++ s
 inductive Node
   | file (content : Str)
   | dir
+  | link (target : List Str)   -- symbolic link; target = elements below the sandbox (an existing link-free place)
   deriving DecidableEq, Repr
 
 structure Entry where
@@ -133,16 +134,23 @@ def Res.isFile : Res → Bool
   | .file _ => true
   | _ => false
 
-/-- kernel path walk below the sandbox: `pre` already resolved, `rest` to go -/
+/-- follow a symbolic link at this place (targets are link-free, so one step suffices) -/
+def derefAt (tree : List Entry) (pre : List Str) : List Str :=
+  match nodeAt tree pre with
+  | some (Node.link t) => t
+  | _ => pre
+
+/-- kernel path walk below the sandbox: `pre` already resolved, `rest` to go; symbolic links are followed
+    (open(2), stat(2)), at intermediate places and at the final one -/
 def walk (tree : List Entry) (pre : List Str) : List Str → Res
   | [] =>
-    match nodeAt tree pre with
+    match nodeAt tree (derefAt tree pre) with
     | some (Node.file c) => Res.file c
     | some Node.dir => Res.dir
-    | none => Res.notExist
+    | _ => Res.notExist
   | s :: rest =>
-    match nodeAt tree pre with
-    | some Node.dir => if s.length > 255 then Res.tooLong else walk tree (pre ++ [s]) rest
+    match nodeAt tree (derefAt tree pre) with
+    | some Node.dir => if s.length > 255 then Res.tooLong else walk tree (derefAt tree pre ++ [s]) rest
     | _ => Res.notExist
 
 /-- resolve absolute path elements; `sb` = elements of the sandbox directory; nothing the requests can
@@ -236,7 +244,7 @@ def filesUnderRoot (cfg : Cfg) : List Str :=
   cfg.tree.filterMap fun e =>
     match e.node with
     | Node.file c => if (rootSegs cfg).isPrefixOf (cfg.sb ++ e.path) then some c else none
-    | Node.dir => none
+    | _ => none
 
 /-- the tree without everything that is not below the document root -/
 def restrict (cfg : Cfg) : Cfg :=
@@ -295,5 +303,141 @@ def sInForce (cs : List SConf) (product : Str) : Option (List SRule) :=
   match cs.getLast? with
   | some c => slookup c.products product
   | none => none
+
+/-! ### Accept-Encoding, extensions, content types, the rule-file loader -/
+
+def lowerB (b : UInt8) : UInt8 := if 0x41 ≤ b && b ≤ 0x5a then b + 0x20 else b
+def lowerS (s : Str) : Str := s.map lowerB
+
+def isTokenBoundary (b : UInt8) : Bool := b == 0x20 || b == 0x2c || b == 0x09
+
+/-- `bfe_http.HasToken(v, token)` for an ASCII lower-case token -/
+def hasToken (v token : Str) : Bool :=
+  if token.length > v.length || token == [] then false
+  else if v == token then true
+  else (List.range (v.length - token.length + 1)).any fun sp =>
+    let b := v.getD sp 0
+    (b == token.headD 0 || (b ||| 0x20) == token.headD 0) &&
+    (sp == 0 || isTokenBoundary (v.getD (sp - 1) 0)) &&
+    (sp + token.length == v.length || isTokenBoundary (v.getD (sp + token.length) 0)) &&
+    lowerS ((v.drop sp).take token.length) == token
+
+def tokGzip : Str := [0x67, 0x7a, 0x69, 0x70]
+def tokBr : Str := [0x62, 0x72]
+
+/-- `CheckAcceptEncoding` (only consulted when EnableCompress) -/
+def acceptedEncodings (enableCompress : Bool) (acceptEncoding : Str) : List Enc :=
+  if enableCompress then
+    (if hasToken acceptEncoding tokGzip then [Enc.gzip] else []) ++ (if hasToken acceptEncoding tokBr then [Enc.br] else [])
+  else []
+
+/-- `filepath.Ext(name)` -/
+def extOf (name : Str) : Str :=
+  let elem := (split name).getLast?.getD []
+  match (List.range elem.length).reverse.find? (fun i => elem.getD i 0 == 0x2e) with
+  | some i => elem.drop i
+  | none => []
+
+/-- spec side (RFC 7231 §5.3.4): is the coding acceptable according to the header: some element names it
+    (case-insensitively) and its weight is not zero -/
+def trimOWS (s : Str) : Str :=
+  let isows := fun (b : UInt8) => b == 0x20 || b == 0x09
+  ((s.dropWhile isows).reverse.dropWhile isows).reverse
+
+def splitOnB (sep : UInt8) : Str → List Str
+  | [] => [[]]
+  | c :: cs =>
+    if c == sep then [] :: splitOnB sep cs
+    else match splitOnB sep cs with
+      | h :: t => (c :: h) :: t
+      | [] => [[c]]
+
+def qIsZero (param : Str) : Bool :=
+  let p := lowerS (trimOWS param)
+  match p with
+  | 0x71 :: rest =>
+    (match trimOWS rest with
+     | 0x3d :: v =>
+       let v := trimOWS v
+       v.head? == some 0x30 && v.all (fun b => b == 0x30 || b == 0x2e)
+     | _ => false)
+  | _ => false
+
+def specAccepts (acceptEncoding token : Str) : Bool :=
+  (splitOnB 0x2c acceptEncoding).any fun el =>
+    match splitOnB 0x3b el with
+    | coding :: params => lowerS (trimOWS coding) == token && !params.any qIsZero
+    | [] => false
+
+/-- one rule of a rule FILE as the loader sees it -/
+structure FRule where
+  cond : Nat            -- 0 = builds, does not match; 1 = builds, matches; 2 = empty string; 3 = does not build
+  cmd : Nat             -- 0 = "BROWSE"; 1 = other string; 2 = Cmd missing; 3 = Action missing
+  nparams : Nat         -- number of Params; the first is the root, the second the default file
+  root : Str
+  df : Str
+
+/-- `ActionFileCheck` + `StaticRuleCheck` + `condition.Build`: the root must exist (os.Stat), a non-empty default
+    file must exist at `path.Join(root, defaultFile)` — an UNROOTED join -/
+def fruleOk (tree : List Entry) (sb : List Str) (r : FRule) : Bool :=
+  (r.cond == 0 || r.cond == 1) && r.cmd == 0 && r.nparams == 2 &&
+  (match resolve tree sb (cleanSegs true (split r.root)) with
+   | Res.file _ => true | Res.dir => true | _ => false) && !r.root.contains 0 &&
+  (r.df == [] ||
+    ((match resolve tree sb (joinSegs r.root r.df) with
+      | Res.file _ => true | Res.dir => true | _ => false) && !r.df.contains 0))
+
+structure FConf where
+  fileOk : Bool                       -- the file is JSON of the right shape with Version and Config present
+  version : Str
+  products : List (Str × Option (List FRule))    -- a product may be `null`
+
+def fconfOk (tree : List Entry) (sb : List Str) (c : FConf) : Bool :=
+  c.fileOk && c.products.all fun p => match p.2 with
+    | none => false
+    | some rs => rs.all (fruleOk tree sb)
+
+def FConf.toSConf (c : FConf) : SConf :=
+  { version := c.version
+    products := c.products.map fun p => (p.1, (p.2.getD []).map fun r => { hit := r.cond == 1, root := r.root, df := r.df }) }
+
+/-- `loadConfData`: a rejected file leaves the table alone -/
+def fupdate (tree : List Entry) (sb : List Str) (t : List (Str × List SRule)) (c : FConf) : List (Str × List SRule) :=
+  if fconfOk tree sb c then c.toSConf.products else t
+
+def ftableAfter (tree : List Entry) (sb : List Str) (cs : List FConf) : List (Str × List SRule) :=
+  cs.foldl (fupdate tree sb) []
+
+/-- spec side: the configuration in force is the last accepted one -/
+def fInForce (tree : List Entry) (sb : List Str) (cs : List FConf) (product : Str) : Option (List SRule) :=
+  match cs.reverse.find? (fconfOk tree sb) with
+  | some c => slookup c.toSConf.products product
+  | none => none
+
+/-- mime table: `MimeTypeConfLoad` (Version must be non-empty; keys lower-cased; a duplicate key after
+    lower-casing: generated distinct) and `processContentType` -/
+structure MConf where
+  fileOk : Bool
+  version : Str
+  entries : List (Str × Str)
+
+def mconfOk (c : MConf) : Bool := c.fileOk && c.version != []
+
+def mtableAfter (cs : List MConf) : List (Str × Str) :=
+  cs.foldl (fun t c => if mconfOk c then c.entries.map (fun e => (lowerS e.1, e.2)) else t) []
+
+/-- Content-Type: the module's table on the lower-cased extension of the REQUESTED name (or of the default file
+    when that is what is served), else Go's `mime.TypeByExtension` (parameter `sysType`), none when empty -/
+def contentType (mt : List (Str × Str)) (sysType : Str → Str) (ext : Str) : Option Str :=
+  let ct := match mt.find? (fun e => e.1 == lowerS ext) with
+    | some e => e.2
+    | none => sysType ext
+  if ct == [] then none else some ct
+
+/-- which name was served: the requested one or the default file (openStaticFile) -/
+def servedName (cfg : Cfg) (path : Str) (encs : List Enc) (defaultFile : Str) : Str :=
+  match newStaticFile cfg path encs with
+  | .ok _ => path
+  | .error _ => defaultFile
 
 end BfeVerif.C50
